@@ -286,7 +286,7 @@ LATER_RULES = {
     "C22": "R22g parse-error counts reach the fix drivers' exit status only under not fix_even_unparsable.",
     "C23": "R23e per-record mappings carry nothing across iterations; R23f line fields from line numbers, column fields from columns. R23g optional positions tested with `is not None` in the lexer.",
     "C24": "R24g a Linter keeps no state between files. R24h every sequenced file yields a task; no skip decided at dispatch.",
-    "C25": "R25e inner ignore files loaded for every walked directory; R25h every outer ignore source tried; R25i same-name options forwarded from the parameter of that name. R25j sub-directories dropped only by the ignore test, on a path built from the walked directory.",
+    "C25": "R25k the keys discovery reads as ignore patterns are not path-resolved by the config loader (table agreement); R25e inner ignore files loaded for every walked directory; R25h every outer ignore source tried; R25i same-name options forwarded from the parameter of that name. R25j sub-directories dropped only by the ignore test, on a path built from the walked directory.",
     "C27": "R27d copy() deep-copies; R27e nested_combine stores every key; R27f unset command-line options do not override config files.",
     "C28": "R28d per-variant tree output; R28e record values set in the iteration that uses them; R28f comment / non-comment lists partition the children; R28g type and text printed in full. R28h machine-readable output keeps the key order; R28i only an empty tuple becomes null.",
     "C29": "R29c matchable class references; R29d a dialect module changes only its own dialect object.",
